@@ -9,7 +9,8 @@
 //!          cases of a group run one after the other on the same two wallets, so a
 //!          case starts from whatever history the earlier ones left behind
 //! case  : {id, flow: send|late|self|inv|invself, nin, nch, incfee, proof,
-//!          stage: none|pre|post, tamper: <class of SlateAlgebra!Tamper>}
+//!          stage: none|pre|post, tamper: <class of SlateAlgebra!Tamper>,
+//!          tamper2: none | <a second class, applied to the reply after `tamper`>}
 //!
 //! One case = one complete exchange:
 //!   initiation on the real wallet (amount chosen so that the selection has the
@@ -148,6 +149,11 @@ fn run_case(w: &mut World, c: &Value, ctl: &mut Ctl) -> Value {
 	let proof = c["proof"].as_bool().unwrap_or(false);
 	let stage = s(&c["stage"]);
 	let class = s(&c["tamper"]);
+	// a second alteration of the reply, applied after `tamper` ("none" = single alteration)
+	let class2 = match c["tamper2"].as_str() {
+		Some(x) if !x.is_empty() => x.to_string(),
+		_ => "none".to_string(),
+	};
 	let invoice = flow == "inv" || flow == "invself";
 	let late = flow == "late";
 	let payer = "w1";
@@ -176,7 +182,7 @@ fn run_case(w: &mut World, c: &Value, ctl: &mut Ctl) -> Value {
 		obs = w.obs();
 		el = eligible(&obs, payer);
 	}
-	if class == "part_stale" && ctl.stale_sig.is_none() {
+	if (class == "part_stale" || class2 == "part_stale") && ctl.stale_sig.is_none() {
 		// an earlier, honest exchange whose reply signature can be replayed later
 		let name0 = w.new_slate_name();
 		let i0 = w.init_send("w1", &name0, &json!({"amt": 1000, "minconf": 1, "nchange": 1}));
@@ -361,7 +367,7 @@ fn run_case(w: &mut World, c: &Value, ctl: &mut Ctl) -> Value {
 	let mut v2 = to_v4(&reply);
 	let genuine_sig = v2.sigs.get(0).and_then(|p| p.part);
 	let mut other: Option<String> = None;
-	if class == "id_other" {
+	if class == "id_other" || class2 == "id_other" {
 		// a second pending transaction of the finalizing wallet
 		let on = w.new_slate_name();
 		let r = if invoice {
@@ -374,8 +380,10 @@ fn run_case(w: &mut World, c: &Value, ctl: &mut Ctl) -> Value {
 		other = Some(on);
 	}
 	let mut post_wire = true;
-	let delivered = if stage == "post" {
-		if let Err(e) = tamper::apply(&class, &mut v2, &env) {
+	let delivered = if stage == "post" || class2 != "none" {
+		let first = if stage == "post" { tamper::apply(&class, &mut v2, &env) } else { Ok(()) };
+		let both = first.and_then(|_| if class2 != "none" { tamper::apply(&class2, &mut v2, &env) } else { Ok(()) });
+		if let Err(e) = both {
 			ev["run"] = json!(format!("skip:tamper:{}", e));
 			ev["steps"] = json!(steps);
 			cleanup(w, &mut ev, &name, payer, payee, other.as_deref());
@@ -544,6 +552,24 @@ fn cleanup(w: &mut World, ev: &mut Value, name: &str, payer: &str, payee: &str, 
 	}
 }
 
+/// Is the world still usable?  (its directories exist, an empty block can be mined, both wallets
+/// refresh.)  Used only to tell a refusal by the code under test from a broken environment
+/// (e.g. the scratch directory was removed under the running process): such a case is reported as
+/// `skip:env` and re-run by the runner, never judged.
+fn world_intact(w: &mut World) -> bool {
+	let mut ok = std::path::Path::new(&w.dir).join(".grin").exists();
+	for (_, h) in w.wallets.iter() {
+		ok = ok && std::path::Path::new(&h.dir).join("wallet_data").exists();
+	}
+	if !ok {
+		return false;
+	}
+	let m = w.mine(None, &[]);
+	let r1 = w.refresh("w1", 1);
+	let r2 = w.refresh("w2", 1);
+	m["res"] == "ok" && r1["res"] == "ok" && r2["res"] == "ok"
+}
+
 /// TLC's JSON reader has no null: absent values become ""
 fn denull(v: &mut Value) {
 	match v {
@@ -577,9 +603,15 @@ fn run_group(dir: &str, g: usize, cases: &[Value]) -> Vec<String> {
 	for c in cases {
 		let r = std::panic::catch_unwind(std::panic::AssertUnwindSafe(|| run_case(&mut w, c, &mut ctl)));
 		let (mut line, broken) = match r {
-			Ok(v) => {
-				let ab = v["abandon"] == true;
-				(v, ab)
+			Ok(mut v) => {
+				let run = s(&v["run"]);
+				let skipped = run.starts_with("skip:") && !run.starts_with("skip:tamper:");
+				let odd = v["abandon"] == true || skipped || (v["fin"]["res"] == "ok" && v["tx"]["stored_equal"] != true);
+				if odd && !world_intact(&mut w) {
+					v["run_was"] = json!(run);
+					v["run"] = json!("skip:env");
+				}
+				(v, odd)
 			}
 			Err(p) => (json!({"ev": "case", "c": c, "run": format!("skip:harness-panic:{}", panic_msg(&p))}), true),
 		};
